@@ -13,7 +13,7 @@ from mc.space.grammar import (
 
 LEAVES = [
     # identifiers
-    ('a',), ('$',), ('_a',), ('a1',), ('\xe9',),
+    ('a',), ('$',), ('_a',), ('a1',), ('\xe9',), ('a1\xe9',), ('\u03c0x',),
     # numbers
     ('1',), ('1.',), ('.5',), ('1.5',), ('1e3',), ('0x1f',), ('0',),
     # strings: plain, double, escape kinds, continuation, empty
@@ -28,7 +28,7 @@ LEAVES = [
     ('function', '(', ')', '{', '}'),
 ]
 # a reduced catalogue for the big three-slot products
-LEAVES_SMALL = [('a',), ('$',), ('1',), ('1.',), ('.5',), ("'s'",),
+LEAVES_SMALL = [('a',), ('$',), ('\xe9',), ('1',), ('1.',), ('.5',), ("'s'",),
                 ('/r/',), ('/=/',), ('this',), ('(', 'a', ')'), ('[', ']'),
                 ('{', '}')]
 
